@@ -252,6 +252,10 @@ class ReadOnlyScenario(BaseScenario):
                 if vio.prop == "C10":
                     raise
                 outcome = "oracle:" + vio.tag     # another property's live-state oracle on a refused path: not judged here
+            except Exception as err:  # pylint: disable=broad-except
+                # the world's own bookkeeping met a workspace the operation left in an unexpected state (e.g. closed):
+                # the file-level oracles of the caller decide, not the bookkeeping
+                outcome = "broke:" + type(err).__name__
         finally:
             sim.end_op()
             world.call_expect_either = False
